@@ -14,6 +14,21 @@ mod verif_kani_k5 {
         assert!(!'a'.is_whitespace());
     }
 
+    // full domain, loop-free: the two char-level `assume_specification`s of contracts/prelude/std_more.vrs (A4), on the real std functions
+    //   char::is_ascii(c)            == (c as u32 < 128)                  for every char
+    //   u8::is_ascii_whitespace(b)   == b in {32, 9, 10, 12, 13}          for every u8
+    #[kani::proof]
+    fn k5_is_ascii_all_chars() {
+        let c: char = kani::any();
+        assert!(c.is_ascii() == ((c as u32) < 128));
+    }
+
+    #[kani::proof]
+    fn k5_is_ascii_whitespace_all_u8() {
+        let b: u8 = kani::any();
+        assert!(b.is_ascii_whitespace() == (b == 32 || b == 9 || b == 10 || b == 12 || b == 13));
+    }
+
     // vacuity guard
     #[kani::proof]
     #[kani::should_panic]
